@@ -95,13 +95,18 @@ var c06Laws = []c06law{
 		func(x, y float64) []LValue {
 			return []LValue{sep, s_("normal"), s_("normal"), s_("running"), sep, LFalse, sep, LFalse, sep, s_("b-end"), sep, s_("a-end"), sep, LTrue, n_(x), sep, s_("dead"), s_("dead"), s_("dead")}
 		}},
+	// writes through upvalues reach the owning thread's variable in both directions
+	{`local total = x
+	  local co = coroutine.wrap(function(a) total = total + a; local mine = 1; setmine = function(v) mine = v end; coroutine.yield(); total = total + a; return mine end)
+	  co(y); emit(total); setmine(7); emit(co(), total)`,
+		func(x, y float64) []LValue { return []LValue{sep, n_(x + y), sep, n_(7), n_(x + y + y)} }},
 }
 
 var sep LValue = LString("\x00sep")
 
 // C06.laws — coroutine value transfer, status and error laws with symbolic payloads.
 //
-//verif:harness prop=C06 tier=quick bounds="13 law templates (<= 3 coroutines, <= 6 resumes each): transfer in both directions with 0..3 values, status incl. normal/running, errors and faults inside coroutines, wrap, generators, nested resumes, dead/running resume, tail-called yield; payloads 2 symbolic float64"
+//verif:harness prop=C06 tier=quick bounds="14 law templates (<= 3 coroutines, <= 6 resumes each): transfer in both directions with 0..3 values, status incl. normal/running, errors and faults inside coroutines, wrap, generators, nested resumes, dead/running resume, tail-called yield; payloads 2 symbolic float64"
 func H_C06_laws() {
 	k := VChoice(len(c06Laws))
 	law := c06Laws[k]
